@@ -22,6 +22,7 @@ import (
 
 	"github.com/tokenized/bitcoin_reader/headers"
 	"github.com/tokenized/pkg/bitcoin"
+	"github.com/tokenized/pkg/storage"
 	"github.com/tokenized/pkg/wire"
 )
 
@@ -57,9 +58,12 @@ func hostileInput(s *session, rng *rand.Rand) (string, []byte) {
 		h.Timestamp = ts
 		return h
 	}
-	k := rng.Intn(22)
+	k := rng.Intn(23)
 	if s.wanted != nil && rng.Intn(2) == 0 {
 		k = 12
+	}
+	if s.altHeaders != nil && rng.Intn(3) == 0 {
+		k = 22
 	}
 	switch k {
 	case 0:
@@ -181,6 +185,16 @@ func hostileInput(s *session, rng *rand.Rand) (string, []byte) {
 		var p bytes.Buffer
 		putVarInt(&p, pickU())
 		return "getdata with hostile count", rawMessage("getdata", p.Bytes())
+	case 22:
+		// a headers message that announces two headers and stops after the first one, which is a header the node
+		// accepts (the required header while verifying, the next header of its chain otherwise): the handler and
+		// the alternate header handler, if one is installed, are both left waiting for the second
+		first := s.fabHeader(s.tip)
+		if !s.node.Verified() {
+			first = headers.MainNetRequiredHeader
+		}
+		m := rawMessage("headers", headersPayload([]*wire.BlockHeader{first, s.fabHeader(*first.BlockHash())}, 0))
+		return "headers cut after the first of two headers", m[:24+1+81]
 	default:
 		// a valid message with random bit flips in the payload (checksum recomputed)
 		m := s.build([]string{"addr", "inv", "tx", "reject", "hdrGood", "version"}[rng.Intn(6)])
@@ -233,6 +247,15 @@ func hostileMain(args []string) int {
 		phase := []string{"connected", "verifying", "ready"}[rng.Intn(3)]
 		beh := &sessBeh{TxMgr: rng.Intn(4) != 0, VerifyOnly: rng.Intn(6) == 0}
 		s := newSession(beh, *seed*7+int64(i), false)
+		if rng.Intn(3) == 0 {
+			// an alternate header handler (NodeManager.SetHeaderHandler): a second repository that reads every
+			// headers message alongside the node's own handler
+			alt := headers.NewRepository(headers.DefaultConfig(), storage.NewMockStorage())
+			alt.DisableDifficulty()
+			alt.InitializeWithGenesis()
+			s.altHeaders = alt
+			s.node.SetHeaderHandler(alt.HandleHeadersMessage)
+		}
 		fmt.Printf("SESSION %d %s\n", i, phase)
 		init := map[string]int{}
 		s.collect(0, 30*time.Millisecond, init)
